@@ -64,6 +64,9 @@ def run_unit(unit, repo=REPO, rlimit=None, threads=8, canary=None, suffix='', ma
             und.append('verus produced no result json')
         hints = [f for f in fails if f['kind'] == 'hint']
         others = [f for f in fails if f['kind'] != 'hint']
+        if any(h['message'].startswith('hint does not compile') for h in hints):
+            # rustc stopped before verification: nothing else of this round means anything
+            und = [u for u in und if not u.startswith('tool/compile error')]
         r.failures = others
         r.undecided = und
         if hints and rnd + 1 < max_rounds:
